@@ -1321,8 +1321,7 @@ def check_copy(case, ctx):
         ctx.check(type(dup) is type(obj), prefix + ".class", "%s vs %s" % (type(dup).__name__, type(obj).__name__))
         report(ctx, prefix + ".equal", mismatches(snap, dup), "(%s of %s)" % (name, clsname))
         report(ctx, prefix + ".source_changed", diff(snap, snapshot(obj)), "(%s of %s)" % (name, clsname))
-        if fam == "ge":
-            ctx.check(dup.rng is obj.rng, prefix + ".rng_is_shared_service")
+        # whether a copy shares the protocol's random generator is not asserted here (C08 decides what re-seeding requires)
         if not deep:
             continue
         src = _arrays(obj)
